@@ -39,6 +39,14 @@ def main():
                 if os.path.exists(src + '/' + f):
                     shutil.copy(src + '/' + f, dst + '/' + f)
         head = subprocess.run(['git', '-C', '/repo', 'rev-parse', '--short', 'HEAD'], capture_output=True, text=True).stdout.strip()
+        prev = {}
+        if os.path.exists(dst + '/meta.json'):
+            try:
+                prev = json.load(open(dst + '/meta.json')).get('checks_run', {})
+            except Exception:
+                prev = {}
+        prev.update(res)
+        res = prev
         meta = {'property': pid, 'variant': var, 'author': 'independent sub-agent given only the property text and a scratch worktree',
                 'needs_to_manifest': open(dst + '/notes.md').read() if os.path.exists(dst + '/notes.md') else '',
                 'confirmed': {'demo_exit_without_change': rc0, 'patch_applies': True, 'baseline_suite_with_change': tests,
